@@ -188,12 +188,24 @@ INT_TY = {'i8': (8, True), 'i16': (16, True), 'i32': (32, True), 'i64': (64, Tru
           'u8': (8, False), 'u16': (16, False), 'u32': (32, False), 'u64': (64, False), 'u128': (128, False), 'usize': (64, False)}
 
 
-def wrap(x, w, sg):
+def wrap_mod(x, w, sg):
     m = 1 << w
     if sg:
         h = 1 << (w - 1)
         return ((x + h) % m) - h
     return x % m
+
+
+def wrap(x, w, sg):
+    """two's-complement wrap of a mathematical integer; the in-range case is kept free of `mod`"""
+    if z3.is_int_value(x):
+        v = x.as_long()
+        m = 1 << w
+        v %= m
+        if sg and v >= (1 << (w - 1)):
+            v -= m
+        return z3.IntVal(v)
+    return z3.If(in_range(x, w, sg), x, wrap_mod(x, w, sg))
 
 
 def in_range(x, w, sg):
@@ -208,6 +220,7 @@ def int_tdiv(x, y):
     return z3.If((x >= 0) == (y >= 0), q, -q)
 
 
+DIVIDES = z3.Function('divides', z3.IntSort(), z3.IntSort(), z3.BoolSort())    # divides(b, a): b != 0 and b | a
 POW2 = z3.Function('pow2', z3.IntSort(), z3.IntSort())
 POW2_AXIOMS = [POW2(z3.IntVal(k)) == z3.IntVal(1 << k) for k in range(0, 65)]
 
@@ -278,6 +291,8 @@ class Exec:
         self.max_depth = 24
         self.step_bound = 600
         self.extra_lemmas = []
+        self.uf_defs = []
+        self.products = []
 
     def get_fn(self, m):
         f = self.cache.get(id(m))
@@ -635,6 +650,15 @@ class Exec:
         if mm:
             args = [self.operand(st, p, fn) for p in split_top(mm.group(3))] if mm.group(3).strip() else []
             return Enum(mm.group(2), args, last_seg(mm.group(1)))
+        mm = re.match(r'^\{closure@[^}]*\} \{(.*)\}$', s)
+        if mm:      # closure environment: captured places in order
+            fields = []
+            for p in split_top(mm.group(1)):
+                if ':' in p:
+                    fields.append(self.operand(st, p.split(':', 1)[1], fn))
+            return Struct(fields, 'closure')
+        if re.match(r'^\{closure@[^}]*\}$', s):
+            return Struct([], 'closure')
         mm = re.match(r'^([\w:<>\', ]+?) \{(.*)\}$', s)
         if mm:
             fields = []
@@ -734,6 +758,8 @@ class Exec:
             raise Unsupported(f'bool op {op}')
         if z3.is_int(a) and z3.is_int(b):
             w, sg = INT_TY.get((ty or '').strip(), (64, True))
+            if op.startswith('Mul') and not z3.is_int_value(z3.simplify(a)) and not z3.is_int_value(z3.simplify(b)):
+                self.products.append((a, b))     # symbolic x symbolic: lemma instantiation points
             if op in ('Add', 'Sub', 'Mul'):
                 return wrap({'Add': a + b, 'Sub': a - b, 'Mul': a * b}[op], w, sg)
             if op in ('AddUnchecked', 'SubUnchecked', 'MulUnchecked'):
@@ -827,6 +853,13 @@ class Exec:
             return a
         if kind == 'IntToInt' and z3.is_int(a):
             w2, s2 = INT_TY[to_ty]
+            f = INT_TY.get((from_ty or '').strip())
+            if f:
+                w1, s1 = f
+                # widening cast: every value of the source type is a value of the target type
+                # (all terms of machine type T are kept inside T's range by construction)
+                if (s1 == s2 and w1 <= w2) or (not s1 and s2 and w1 < w2):
+                    return a
             return wrap(a, w2, s2)
         if kind == 'IntToInt' and z3.is_bool(a):
             return z3.If(a, self.mk_int(1, to_ty), self.mk_int(0, to_ty))
@@ -934,6 +967,12 @@ class Exec:
                 continue
             first = last_seg(f.args[0][1]) if f.args else None
             score = 0
+            if not c_nogen.startswith('<'):
+                fname = strip_generics(f.name)
+                if fname == c_nogen:
+                    score += 6
+                elif fname.endswith('::' + c_nogen) or c_nogen.endswith('::' + fname):
+                    score += 4
             if trait_arg and len(f.args) == 1 and first == trait_arg:
                 score += 3
             if (not trait_arg) and mm and len(f.args) >= 2 and last_seg(f.args[1][1]) == tyname and first == tyname:
@@ -963,6 +1002,11 @@ class Exec:
 
     def call(self, st, callee, argvals, path, depth):
         """returns list of ('ret', value, path, mem)"""
+        if re.match(r'^<\{closure@[^}]*\} as Fn(Mut|Once)?<\(.*\)>>::call(_mut|_once)?$', callee):
+            tup = argvals[1]
+            targs = list(tup.fields) if isinstance(tup, Struct) else [tup]
+            f = self.find_closure(callee)
+            return [('ret', v, p, m) for v, p, m in self.run(f, [argvals[0]] + targs, path, depth + 1, (), st['mem'])]
         for name, pat, fnc in self.contracts:
             if pat.search(callee):
                 self.cur_mem = st['mem']
